@@ -37,6 +37,20 @@ def c04_r1(ctx):
     f = prog.method("writing.SegmentWriter", "__init__", inherited=False)
     ctx.saw(f)
 
+    # the lock object may be held in a local that is also stored in self.writelock (lock = ix.lock(...); self.writelock = lock)
+    lock_names = set(["self.writelock"])
+    for st in ast.walk(f.node):
+        if isinstance(st, ast.Assign):
+            tg = [norm.canon(t) for t in st.targets]
+            if "self.writelock" in tg:
+                for t in st.targets:
+                    if isinstance(t, ast.Name):
+                        lock_names.add(t.id)           # self.writelock = lock = ix.lock(...)
+                if isinstance(st.value, ast.Name):
+                    lock_names.add(st.value.id)        # self.writelock = lock
+            elif norm.canon(st.value) == "self.writelock":
+                lock_names |= set(t.id for t in st.targets if isinstance(t, ast.Name))
+
     def classify(func, call, res, concrete):
         n = norm.call_name(call)
         if n == "_read_toc":
@@ -58,8 +72,8 @@ def c04_r1(ctx):
             return None
         e = node.ast
         pol = label[0]
-        if isinstance(e, ast.Call) and norm.call_name(e) == "try_for" and e.args and \
-                "acquire" in norm.canon(e.args[0]) and "writelock" in norm.canon(e.args[0]):
+        if isinstance(e, ast.Call) and norm.call_name(e) == "try_for" and e.args and isinstance(e.args[0], ast.Attribute) and \
+                e.args[0].attr == "acquire" and norm.canon(e.args[0].value) in lock_names:
             return "lock.acquired" if pol == "T" else "lock.failed"
         if isinstance(e, ast.Name) and e.id == "_lk":
             return "lk.on" if pol == "T" else "lk.off"
@@ -313,14 +327,29 @@ def c04_r5(ctx):
     run = prog.method("writing.AsyncWriter", "run", inherited=False)
     ctx.saw(run)
 
+    # helpers that wait for the lock and hand back the real writer: every return is self.index.writer(...) and the body cannot
+    # fall off its end (it ends in `while True:` without a break)
+    aw = prog.cls("writing.AsyncWriter")
+    getters = set()
+    for name, g_ in aw.methods.items():
+        rets = [r.value for r in returns_of(g_)]
+        last = g_.node.body[-1] if g_.node.body else None
+        endless = isinstance(last, ast.While) and isinstance(last.test, ast.Constant) and last.test.value is True and \
+            not any(isinstance(x, ast.Break) for x in ast.walk(last))
+        gal = norm.aliases(g_.node)
+        if name != "run" and rets and all(v is not None and norm.canon(v, gal).startswith("self.index.writer(") for v in rets) and endless:
+            getters.add(name)
+
+    def obtains(v):
+        t = norm.canon(v)
+        return "self.index.writer(" in t or any(t == "self.%s()" % g_ for g_ in getters)
     # the local that holds the real writer: bound from self.index.writer(...) (and possibly self.writer first)
-    wvars = [n for n, vals in norm.assigned_names(run.node).items()
-             if any(v is not None and "self.index.writer(" in norm.canon(v) for v in vals)]
+    wvars = [n for n, vals in norm.assigned_names(run.node).items() if any(v is not None and obtains(v) for v in vals)]
     wvar = wvars[0] if len(wvars) == 1 else None
 
     def classify(func, call, res, concrete):
         t = norm.canon(call)
-        if "self.index.writer(" in t:
+        if obtains(call):
             return "get_writer"
         if norm.call_name(call) == "getattr" and call.args and norm.canon(call.args[0]) in (wvar, "self.writer"):
             return "replay"
@@ -341,12 +370,12 @@ def c04_r5(ctx):
            detail=fmt(bad) if bad else "")
     # the writer-obtaining loop only exits with a writer
     # wherever the recorded events start to be replayed, the writer is known to be there (the loop cannot be left without one)
-    fr = guards.Facts(run)
+    fr = guards.Facts(run, nonnull=lambda c: any(norm.canon(c) == "self.%s()" % g_ for g_ in getters))
     ok = False
     for n_ in fr.g.nodes:
         if n_.kind in ("for", "iter_init") and isinstance(n_.ast, ast.For) and norm.canon(n_.ast.iter) == "self.events":
-            facts = fr.at(n_) or frozenset()
-            ok = wvar is not None and (("F", "(None is %s)" % wvar) in facts or ("T", wvar) in facts)
+            alts = fr.alternatives(n_) or []
+            ok = wvar is not None and bool(alts) and all(("F", "(None is %s)" % wvar) in a_ or ("T", wvar) in a_ for a_ in alts)
             break
     ctx.ob(run, ok, "the acquisition loop repeats while no writer was obtained")
     # events are replayed in recorded order
